@@ -29,7 +29,7 @@ func (g *stepGen) pickDir(rt *rapid.T, label string) []string {
 		}
 		var dirs []string
 		for _, name := range cur.names() {
-			if cur.children[name].kind == kindDir {
+			if g.r.get(cur, name).kind == kindDir {
 				dirs = append(dirs, name)
 			}
 		}
@@ -48,7 +48,7 @@ func (g *stepGen) namesOf(p []string, pred func(*mnode) bool) []string {
 	}
 	var out []string
 	for _, name := range d.names() {
-		if pred(d.children[name]) {
+		if pred(g.r.get(d, name)) {
 			out = append(out, name)
 		}
 	}
@@ -61,7 +61,7 @@ func (g *stepGen) absentName(rt *rapid.T, p []string) string {
 	d, ok := g.r.modelDir(p)
 	var cands []string
 	for _, n := range freshNames {
-		if !ok || d.children[n] == nil {
+		if !ok || g.r.get(d, n) == nil {
 			cands = append(cands, n)
 		}
 	}
@@ -219,7 +219,7 @@ func (g *stepGen) rename(rt *rapid.T, excl func(string)) *step {
 		st.Name2 = g.absentName(rt, p2)
 	}
 	if d, ok := g.r.modelDir(p); ok {
-		if c := d.children[st.Name]; c != nil && c.kind == kindDir && isPrefix(append(append([]string(nil), p...), st.Name), p2) {
+		if c := g.r.get(d, st.Name); c != nil && c.kind == kindDir && g.r.isPrefix(append(append([]string(nil), p...), st.Name), p2) {
 			excl("rename of a directory into its own subtree (rejected by the kernel before reaching the file system)")
 			return nil
 		}
@@ -274,7 +274,7 @@ func (g *stepGen) setsize(rt *rapid.T) *step {
 		return nil
 	}
 	d, _ := g.r.modelDir(p)
-	cur := len(d.children[name].data)
+	cur := len(g.r.get(d, name).data)
 	return &step{Op: "setsize", Path: p, Name: name, Len: rapid.OneOf(rapid.Just(0), rapid.Just(cur), rapid.Just(cur+1), rapid.IntRange(0, 90)).Draw(rt, "size"), Mask: rapid.IntRange(0, 1).Draw(rt, "mask")}
 }
 
